@@ -35,7 +35,7 @@ func c12SpanChunk(letter byte) []byte {
 	return append(b, p...)
 }
 
-func c12Ops(u *nodelite.Universe, thorough bool) []c12Op {
+func c12Ops(u *nodelite.Universe, thorough, race bool) []c12Op {
 	var ops []c12Op
 	up := func(f string, pin bool) c12Op {
 		nm := "aurora(" + f + ")"
@@ -90,6 +90,14 @@ func c12Ops(u *nodelite.Universe, thorough bool) []c12Op {
 		}
 		return "ok"
 	}}
+	if race {
+		// operations that create pins, run concurrently with a collection run
+		r := []c12Op{pin("A"), up("A", true), bytesUp("B", true)}
+		if thorough {
+			r = append(r, chunkUp('x', true), pin("B"))
+		}
+		return r
+	}
 	ops = append(ops, up("A", false), up("A", true), up("B", false), bytesUp("B", false), bytesUp("B", true),
 		cache("A"), cache("B"), cache("C"), pin("A"), unpin("A"), restart)
 	if thorough {
@@ -120,13 +128,19 @@ func TestVerifC12(t *testing.T) {
 	thorough := mc.Thorough()
 	depth := mc.Pick(4, 5)
 	capacity := uint64(8)
-	ops := c12Ops(u, thorough)
-	var opNames []string
+	ops := c12Ops(u, thorough, false)
+	raceOps := c12Ops(u, thorough, true)
+	var opNames, raceNames []string
 	for _, o := range ops {
 		opNames = append(opNames, o.name)
 	}
+	for _, o := range raceOps {
+		raceNames = append(raceNames, o.name)
+	}
 	const gcCap = 8
-	mc.Run(t, mc.Config{ID: "C12", Name: "C12-gc-pins-uploads", MaxDev: -1, Params: map[string]interface{}{
+	mc.Run(t, mc.Config{ID: "C12", Name: "C12-gc-pins-uploads", MaxDev: 1, Params: map[string]interface{}{
+		"race_alphabet": raceNames, "max_racing_ops": 1,
+		"race_points": "inside every collectGarbage call: testHookGCIteratorDone (candidates selected) and the entry of every chunkinfo.DelFile call the collector makes (one per candidate)",
 		"depth": depth, "alphabet": opNames, "capacity": capacity, "gc_target_ratio": "as shipped (0.9)",
 		"files": letters, "chunk_size": boson.ChunkSize, "gc": "run synchronously after every operation that left a trigger pending",
 	}}, func(x *mc.X) {
@@ -163,10 +177,53 @@ func TestVerifC12(t *testing.T) {
 
 			if s1.Trigger {
 				// ---- a garbage-collection run (worker loop), with the C12 oracle around it
-				res := n.GC(gcCap)
+				// At every scheduling point inside the run one pin-creating operation may execute
+				// (x.Deviate, at most one per execution). It completes — its HTTP answer is back —
+				// before the collector goes on, so its pins must be honoured: the oracle's "before"
+				// state is the state right after the racing operation.
+				s0gc := s1
+				raced, racePoint := "", ""
+				var processed []string // roots whose DelFile call has returned when the racing operation ran
+				var done []string
+				race := func(point string) {
+					k := x.Deviate(1 + len(raceOps))
+					if k == 0 {
+						return
+					}
+					r := raceOps[k-1]
+					b, err := n.Snap()
+					x.NoErr(err, "snapshot")
+					out := r.run(n)
+					a, err := n.Snap()
+					x.NoErr(err, "snapshot")
+					if r.upload {
+						for c := range a.Data {
+							if !b.Data[c] {
+								uploaded[c] = true
+							}
+						}
+					}
+					if r.reg != "" && out == r.regOK {
+						registered[r.reg] = true
+					}
+					raced, racePoint = r.name, point
+					processed = append([]string{}, done...)
+					s1 = a
+					x.Logf("   .. inside the collection run, at %s: %s -> %s   [%s]", point, r.name, out, a.Key())
+				}
+				n.OnGCDelFile = func(root boson.Address) { race("entry of DelFile(" + u.Name(root) + ")") }
+				n.AfterGCDelFile = func(root boson.Address, _ error) { done = append(done, u.Name(root)) }
+				res := n.GCHooked(gcCap, func(run int) { race("gc iterator hook") })
+				n.OnGCDelFile, n.AfterGCDelFile = nil, nil
 				gcRuns += res.Runs
 				s2, err := n.Snap()
 				x.NoErr(err, "snapshot")
+				if raced != "" {
+					x.Tag("gc-raced-by-pin-operation")
+					if strings.HasPrefix(racePoint, "entry") {
+						x.Tag("gc-raced-at-delfile-entry")
+					}
+				}
 				var evicted []string
 				for _, e := range s1.GC {
 					still := false
@@ -243,6 +300,22 @@ func TestVerifC12(t *testing.T) {
 				for _, c := range cs {
 					if s1.Pin[c] > 0 && !s2.Data[c] {
 						x.Tag("gc-hit-pinned-chunk")
+						if raced != "" && s0gc.Pin[c] == 0 {
+							// pinned by the racing operation
+							shape := "before-its-file-was-processed"
+							for _, r := range processed {
+								for _, f := range u.Files {
+									if u.Name(f.Root) == r {
+										for _, a := range f.Closure {
+											if u.Name(a) == c {
+												shape = "after-its-file-was-processed"
+											}
+										}
+									}
+								}
+							}
+							x.Fail("gc-deleted-chunk-pinned-during-run-"+shape, "GC deleted %s although %s (at %s) had pinned it (count %d) and returned before the collector removed it; %s", c, raced, racePoint, s1.Pin[c], ctx)
+						}
 						x.Fail("gc-deleted-pinned-chunk", "GC deleted %s whose pin count was %d; %s", c, s1.Pin[c], ctx)
 					}
 				}
